@@ -28,7 +28,7 @@ func Class(msg string) string {
 }
 
 func RunBatch(bound int, maxExecs int64, names []string) []schedrun.Result {
-	dir := filepath.Join(ev.Root, ".work", "scen")
+	dir := filepath.Join(ev.Work(), "scen")
 	os.MkdirAll(dir, 0o755)
 	const per = 12
 	var chunks [][]string
@@ -41,7 +41,7 @@ func RunBatch(bound int, maxExecs int64, names []string) []schedrun.Result {
 	}
 	var mu sync.Mutex
 	var out []schedrun.Result
-	bin := filepath.Join(ev.Root, ".work", "bin", "sched")
+	bin := filepath.Join(ev.Work(), "bin", "sched")
 	ev.Parallel(len(chunks), 16, func(ci int) {
 		f := filepath.Join(dir, fmt.Sprintf("batch_%d_%d.txt", bound, ci))
 		os.WriteFile(f, []byte(strings.Join(chunks[ci], "\n")+"\n"), 0o644)
@@ -139,7 +139,7 @@ func Confirm(r *ev.Run, scenario string, choices []int) bool {
 	}
 	first := ""
 	for i := 0; i < 5; i++ {
-		cmd := exec.Command(filepath.Join(ev.Root, ".work", "bin", "sched"), "replay", scenario, string(cj))
+		cmd := exec.Command(filepath.Join(ev.Work(), "bin", "sched"), "replay", scenario, string(cj))
 		cmd.Env = append(os.Environ(), "GOMAXPROCS=2")
 		out, err := cmd.Output()
 		ee, ok := err.(*exec.ExitError)
